@@ -153,4 +153,158 @@ Proof. induction ss as [|s r IH]; intros v Hc He Hi; [reflexivity|].
     rewrite (bsum_ext (d s) _ (fun p => nrm2 (chiL s2) (step v s p))).
     + rewrite <- Hc1. apply outcome_weights_sum. exact Is.
     + intros p _. exact (IH (step v s p) Hc2 He Ir). Qed.
+
+(* ---- expectation values: for a chain that is left-isometric before site s and right-isometric after it, the expectation value of
+   an operator on site s, summed over ALL basis strings, equals the contraction of the centre tensor alone (C11) ---- *)
+Hypothesis cj_1 : cj k1 = k1.
+Definition ip (n : nat) (v w : vec) : K := bsum n (fun r => v r * cj (w r)).
+Definition left_iso (s : site) : Prop := forall r r', r < chiR s -> r' < chiR s ->
+  bsum (d s) (fun p => bsum (chiL s) (fun l => A s p l r * cj (A s p l r'))) = if Nat.eqb r r' then k1 else k0.
+(* chain of sites leading from bond dimension chi0 to bond dimension chi *)
+Fixpoint lchain (chi0 : nat) (ss : list site) (chi : nat) : Prop :=
+  match ss with [] => chi0 = chi | s :: r => chiL s = chi0 /\ lchain (chiR s) r chi end.
+Lemma lchain_snoc ss : forall chi0 s chi, lchain chi0 (ss ++ [s]) chi <-> exists m, lchain chi0 ss m /\ chiL s = m /\ chiR s = chi.
+Proof. induction ss as [|x ss IH]; intros chi0 s chi; cbn [app lchain].
+  - split; [intros [H1 H2]; exists chi0; auto|intros (m & <- & H2 & H3); auto].
+  - rewrite IH. split; [intros (H1 & m & H2); exists m; tauto|intros (m & (H1 & H2) & H3); split; [exact H1|exists m; tauto]]. Qed.
+
+(* the overlap of two vectors pushed through one more site, written over the incoming vectors *)
+Lemma ip_step v w s p p' : ip (chiR s) (step v s p') (step w s p) =
+  bsum (chiL s) (fun l => bsum (chiL s) (fun l' => v l * cj (w l') * bsum (chiR s) (fun r => A s p' l r * cj (A s p l' r)))).
+Proof. unfold ip, step.
+  transitivity (bsum (chiR s) (fun r => bsum (chiL s) (fun l => bsum (chiL s) (fun l' => v l * cj (w l') * (A s p' l r * cj (A s p l' r)))))).
+  - apply bsum_ext; intros r _. rewrite cj_bsum. rewrite <- bsum_mul_r. apply bsum_ext; intros l _.
+    rewrite <- bsum_mul_l. apply bsum_ext; intros l' _. rewrite cj_mul. ring.
+  - rewrite bsum_swap. apply bsum_ext; intros l _. rewrite bsum_swap. apply bsum_ext; intros l' _. rewrite <- bsum_mul_l. reflexivity. Qed.
+
+Lemma right_iso_ip v w s : right_iso s -> bsum (d s) (fun p => ip (chiR s) (step v s p) (step w s p)) = ip (chiL s) v w.
+Proof. intro Iso. rewrite (bsum_ext (d s) _ (fun p => bsum (chiL s) (fun l => bsum (chiL s) (fun l' => v l * cj (w l') * bsum (chiR s) (fun r => A s p l r * cj (A s p l' r))))))
+    by (intros; apply ip_step).
+  rewrite bsum_swap. unfold ip. apply bsum_ext; intros l Hl.
+  rewrite bsum_swap.
+  rewrite (bsum_ext (chiL s) _ (fun l' => (if Nat.eqb l l' then k1 else k0) * (v l * cj (w l')))).
+  - apply bsum_delta; auto.
+  - intros l' Hl'. rewrite bsum_mul_l. rewrite Iso by auto. ring. Qed.
+
+(* overlap summed over all completions of the chain to the right *)
+Fixpoint total2 (chi_end : nat) (ss : list site) (v w : vec) : K :=
+  match ss with [] => ip chi_end v w | s :: r => bsum (d s) (fun p => total2 chi_end r (step v s p) (step w s p)) end.
+Theorem completions_ip chi_end ss : forall chi0 v w, lchain chi0 ss chi_end -> Forall right_iso ss -> total2 chi_end ss v w = ip chi0 v w.
+Proof. induction ss as [|s r IH]; intros chi0 v w Hc Hi; cbn [total2 lchain] in *; [rewrite Hc; reflexivity|].
+  destruct Hc as [H1 H2]. inversion Hi as [|? ? Is Ir]; subst.
+  rewrite (bsum_ext (d s) _ (fun p => ip (chiR s) (step v s p) (step w s p))) by (intros; apply (IH (chiR s)); auto).
+  apply right_iso_ip. exact Is. Qed.
+
+(* a function of the vector at a bond, summed over all outcomes of the sites to its left *)
+Fixpoint lsum (ss : list site) (v : vec) (F : vec -> K) : K :=
+  match ss with [] => F v | s :: r => bsum (d s) (fun p => lsum r (step v s p) F) end.
+Lemma lsum_ext ss : forall v F G, (forall w, F w = G w) -> lsum ss v F = lsum ss v G.
+Proof. induction ss as [|s r IH]; intros v F G H; cbn [lsum]; [apply H|]. apply bsum_ext; intros p _. apply IH. exact H. Qed.
+Lemma lsum_app a : forall b v F, lsum (a ++ b) v F = lsum a v (fun w => lsum b w F).
+Proof. induction a as [|s a IH]; intros b v F; cbn [app lsum]; [reflexivity|]. apply bsum_ext; intros p _. apply IH. Qed.
+(* quadratic forms  Q_M(v) = sum_{l,l'} v_l conj(v_l') M_{l l'} *)
+Definition qform (n : nat) (M : nat -> nat -> K) (v : vec) : K := bsum n (fun l => bsum n (fun l' => v l * cj (v l') * M l l')).
+Definition pull (s : site) (M : nat -> nat -> K) : nat -> nat -> K :=
+  fun l l' => bsum (d s) (fun p => bsum (chiR s) (fun r => bsum (chiR s) (fun r' => A s p l r * cj (A s p l' r') * M r r'))).
+Lemma qform_step s M v : bsum (d s) (fun p => qform (chiR s) M (step v s p)) = qform (chiL s) (pull s M) v.
+Proof. unfold qform, pull, step.
+  transitivity (bsum (d s) (fun p => bsum (chiR s) (fun r => bsum (chiR s) (fun r' => bsum (chiL s) (fun l => bsum (chiL s) (fun l' =>
+      v l * cj (v l') * (A s p l r * cj (A s p l' r') * M r r'))))))).
+  - apply bsum_ext; intros p _. apply bsum_ext; intros r _. apply bsum_ext; intros r' _.
+    rewrite cj_bsum. rewrite <- bsum_mul_r, <- bsum_mul_r. apply bsum_ext; intros l _.
+    rewrite <- bsum_mul_l, <- bsum_mul_r. apply bsum_ext; intros l' _. rewrite cj_mul. ring.
+  - transitivity (bsum (chiL s) (fun l => bsum (chiL s) (fun l' => bsum (d s) (fun p => bsum (chiR s) (fun r => bsum (chiR s) (fun r' =>
+      v l * cj (v l') * (A s p l r * cj (A s p l' r') * M r r'))))))).
+    + rewrite (bsum_ext (d s) _ (fun p => bsum (chiL s) (fun l => bsum (chiL s) (fun l' => bsum (chiR s) (fun r => bsum (chiR s) (fun r' =>
+        v l * cj (v l') * (A s p l r * cj (A s p l' r') * M r r'))))))).
+      * rewrite bsum_swap. apply bsum_ext; intros l _. rewrite bsum_swap. reflexivity.
+      * intros p _.
+        rewrite (bsum_ext (chiR s) _ (fun r => bsum (chiL s) (fun l => bsum (chiL s) (fun l' => bsum (chiR s) (fun r' =>
+          v l * cj (v l') * (A s p l r * cj (A s p l' r') * M r r')))))).
+        -- rewrite bsum_swap. apply bsum_ext; intros l _. rewrite bsum_swap. reflexivity.
+        -- intros r _. rewrite bsum_swap. apply bsum_ext; intros l _. rewrite bsum_swap. reflexivity.
+    + apply bsum_ext; intros l _. apply bsum_ext; intros l' _. rewrite <- bsum_mul_l. apply bsum_ext; intros p _.
+      rewrite <- bsum_mul_l. apply bsum_ext; intros r _. rewrite <- bsum_mul_l. reflexivity. Qed.
+Definition tr (n : nat) (M : nat -> nat -> K) : K := bsum n (fun l => M l l).
+Lemma pull_trace s M : left_iso s -> tr (chiL s) (pull s M) = tr (chiR s) M.
+Proof. intro Iso. unfold tr, pull.
+  transitivity (bsum (chiR s) (fun r => bsum (chiR s) (fun r' => M r r' * bsum (d s) (fun p => bsum (chiL s) (fun l => A s p l r * cj (A s p l r')))))).
+  - rewrite (bsum_ext (chiL s) _ (fun l => bsum (chiR s) (fun r => bsum (chiR s) (fun r' => bsum (d s) (fun p => M r r' * (A s p l r * cj (A s p l r'))))))).
+    + rewrite bsum_swap. apply bsum_ext; intros r _. rewrite bsum_swap. apply bsum_ext; intros r' _.
+      rewrite bsum_swap. rewrite <- bsum_mul_l. apply bsum_ext; intros p _. rewrite <- bsum_mul_l. reflexivity.
+    + intros l _. rewrite bsum_swap. apply bsum_ext; intros r _. rewrite bsum_swap. apply bsum_ext; intros r' _.
+      apply bsum_ext; intros p _. ring.
+  - apply bsum_ext; intros r Hr.
+    rewrite (bsum_ext (chiR s) _ (fun r' => (if Nat.eqb r r' then k1 else k0) * M r r')).
+    + apply bsum_delta; auto.
+    + intros r' Hr'. rewrite Iso by auto. ring. Qed.
+
+(* the left environment is the identity: summed over all outcomes of a left-isometric prefix starting at bond dimension 1, a
+   quadratic form of the vector at the bond is the trace of its matrix *)
+Theorem left_environment pre : forall chi M, lchain 1 pre chi -> Forall left_iso pre -> lsum pre e0 (qform chi M) = tr chi M.
+Proof. induction pre as [|s pre IH] using rev_ind; intros chi M Hc Hi.
+  - cbn [lsum lchain] in *. subst chi. unfold qform, tr. cbn [bsum e0]. rewrite cj_1. ring.
+  - apply lchain_snoc in Hc as (m & Hc & H1 & H2). apply Forall_app in Hi as [Hi Hs]. inversion Hs as [|? ? Is _]; subst.
+    rewrite lsum_app. cbn [lsum].
+    rewrite (lsum_ext pre e0 _ (qform (chiL s) (pull s M))) by (intro w; apply qform_step).
+    rewrite (IH (chiL s) (pull s M) Hc Hi). apply pull_trace. exact Is. Qed.
+
+(* dense definition of <psi| O_s |psi> for the chain pre ++ s :: post (all basis strings) = contraction of the centre tensor *)
+Definition dense_expect (pre : list site) (s : site) (post : list site) (O : nat -> nat -> K) : K :=
+  lsum pre e0 (fun v => bsum (d s) (fun p => bsum (d s) (fun p' => O p p' * total2 1 post (step v s p') (step v s p)))).
+Definition local_expect (s : site) (O : nat -> nat -> K) : K :=
+  bsum (d s) (fun p => bsum (d s) (fun p' => O p p' * bsum (chiL s) (fun l => bsum (chiR s) (fun r => A s p' l r * cj (A s p l r))))).
+Theorem centred_expectation pre s post O : lchain 1 pre (chiL s) -> lchain (chiR s) post 1 -> Forall left_iso pre -> Forall right_iso post ->
+  dense_expect pre s post O = local_expect s O.
+Proof. intros Hpre Hpost Lpre Rpost. unfold dense_expect, local_expect.
+  pose (M := fun l l' => bsum (d s) (fun p => bsum (d s) (fun p' => O p p' * bsum (chiR s) (fun r => A s p' l r * cj (A s p l' r))))).
+  rewrite (lsum_ext pre e0 _ (qform (chiL s) M)).
+  - rewrite (left_environment pre (chiL s) M Hpre Lpre). unfold tr, M.
+    rewrite bsum_swap. apply bsum_ext; intros p _. rewrite bsum_swap. apply bsum_ext; intros p' _. rewrite <- bsum_mul_l. reflexivity.
+  - intro v. unfold qform, M.
+    transitivity (bsum (d s) (fun p => bsum (d s) (fun p' => bsum (chiL s) (fun l => bsum (chiL s) (fun l' =>
+       v l * cj (v l') * (O p p' * bsum (chiR s) (fun r => A s p' l r * cj (A s p l' r)))))))).
+    + apply bsum_ext; intros p _. apply bsum_ext; intros p' _.
+      rewrite (completions_ip 1 post (chiR s)) by assumption. rewrite ip_step.
+      rewrite <- bsum_mul_l. apply bsum_ext; intros l _. rewrite <- bsum_mul_l. apply bsum_ext; intros l' _. ring.
+    + rewrite (bsum_ext (d s) _ (fun p => bsum (chiL s) (fun l => bsum (chiL s) (fun l' => bsum (d s) (fun p' =>
+         v l * cj (v l') * (O p p' * bsum (chiR s) (fun r => A s p' l r * cj (A s p l' r)))))))).
+      * rewrite bsum_swap. apply bsum_ext; intros l _. rewrite bsum_swap. apply bsum_ext; intros l' _.
+        rewrite <- bsum_mul_l. apply bsum_ext; intros p _. rewrite <- bsum_mul_l. reflexivity.
+      * intros p _. rewrite bsum_swap. apply bsum_ext; intros l _. rewrite bsum_swap. reflexivity. Qed.
+
+(* dense_expect really is the sum over all basis strings of conj(amplitude) . O . amplitude *)
+Fixpoint sum_over (ss : list site) (F : list nat -> K) : K :=
+  match ss with [] => F [] | s :: r => bsum (d s) (fun p => sum_over r (fun rho => F (p :: rho))) end.
+Lemma sum_over_ext ss : forall F G, (forall rho, F rho = G rho) -> sum_over ss F = sum_over ss G.
+Proof. induction ss as [|s r IH]; intros F G H; cbn [sum_over]; [apply H|]. apply bsum_ext; intros p _. apply IH. intro rho. apply H. Qed.
+Lemma lsum_sum_over ss : forall v F, lsum ss v F = sum_over ss (fun tau => F (run v ss tau)).
+Proof. induction ss as [|s r IH]; intros v F; cbn [lsum sum_over run]; [reflexivity|]. apply bsum_ext; intros p _. apply IH. Qed.
+Lemma total2_sum_over ss : forall v w, total2 1 ss v w = sum_over ss (fun rho => run v ss rho 0 * cj (run w ss rho 0)).
+Proof. induction ss as [|s r IH]; intros v w; cbn [total2 sum_over run].
+  - unfold ip. cbn [bsum]. ring.
+  - apply bsum_ext; intros p _. apply IH. Qed.
+Lemma run_app a : forall b v tau rho, length tau = length a -> run v (a ++ b) (tau ++ rho) = run (run v a tau) b rho.
+Proof. induction a as [|s a IH]; intros b v tau rho H; destruct tau as [|p tau]; try discriminate; cbn [app run]; [reflexivity|].
+  apply IH. cbn in H. lia. Qed.
+Theorem dense_expect_is_sum_over_strings pre s post O :
+  dense_expect pre s post O =
+  sum_over pre (fun tau => bsum (d s) (fun p => bsum (d s) (fun p' => sum_over post (fun rho =>
+    O p p' * (run (step (run e0 pre tau) s p') post rho 0 * cj (run (step (run e0 pre tau) s p) post rho 0)))))).
+Proof. unfold dense_expect. rewrite lsum_sum_over. apply sum_over_ext; intro tau. apply bsum_ext; intros p _. apply bsum_ext; intros p' _.
+  rewrite total2_sum_over.
+  assert (E : forall F c, c * sum_over post F = sum_over post (fun rho => c * F rho)).
+  { induction post as [|x post IHp]; intros F c; cbn [sum_over]; [reflexivity|]. rewrite <- bsum_mul_l. apply bsum_ext; intros q _. apply IHp. }
+  apply E. Qed.
+
+(* two-site operators: the merged tensor of two neighbouring sites (tdvp.merge_mps_tensors) is a site whose step is the
+   composition of the two steps, so the one-site statement above applies to it with the physical index q = p1 * d2 + p2 *)
+Definition merge (s1 s2 : site) : site :=
+  {| d := d s1 * d s2; chiL := chiL s1; chiR := chiR s2;
+     A := fun q l r => bsum (chiR s1) (fun k => A s1 (q / d s2) l k * A s2 (q mod d s2) k r) |}.
+Lemma step_merge v s1 s2 q r : chiR s1 = chiL s2 -> step v (merge s1 s2) q r = step (step v s1 (q / d s2)) s2 (q mod d s2) r.
+Proof. intro H. unfold step, merge. cbn [chiL A]. rewrite <- H.
+  rewrite (bsum_ext (chiL s1) _ (fun l => bsum (chiR s1) (fun k => v l * A s1 (q / d s2) l k * A s2 (q mod d s2) k r)))
+    by (intros l _; rewrite <- bsum_mul_l; apply bsum_ext; intros k _; ring).
+  rewrite bsum_swap. apply bsum_ext; intros k _. rewrite <- bsum_mul_r. reflexivity. Qed.
 End TT.
